@@ -232,7 +232,7 @@ impl TypeCheckable for PreExp {
                             )
                             .add_span(f.span()));
                         }
-                    } else if !exp_type.is_numeric() {
+                    } else if !exp_type.is_numeric() && !exp_type.is_any() {
                         return Err(TransformError::from_wrong_type(
                             PrimitiveKind::Number,
                             exp_type,
@@ -278,7 +278,7 @@ impl TypeCheckable for PreExp {
                         .add_span(f.span());
                         return Err(err);
                     }
-                } else if !exp_type.is_numeric() {
+                } else if !exp_type.is_numeric() && !exp_type.is_any() {
                     let err = TransformError::from_wrong_type(
                         PrimitiveKind::Number,
                         exp_type,
